@@ -113,7 +113,9 @@ pub fn peephole_compile<'a>(
   let mut label_offsets: collections::Vec<usize> = bumpalo::vec![in alloc; 0; label_count];
 
   if label_count > u16::MAX as usize {
-    todo!("Really handle this");
+    return Err(bumpalo::vec![in alloc; Diagnostic::error().with_message(
+      "Too many jump targets in one function."
+    )]);
   }
 
   compute_label_offsets(&instructions, &mut label_offsets[..label_count]);
